@@ -38,11 +38,34 @@ pub mod idna {
         ensures match r { Ok(s) => spec_to_ascii(sb(host)) == Some(string_sb(s)) && is_ascii_bytes(string_sb(s)), Err(_) => spec_to_ascii(sb(host)).is_none() }
     { unimplemented!() }
 }
-// the ASCII (punycode) form of a name: itself when already ASCII
-pub open spec fn ascii_form(b: Seq<u8>) -> Option<Seq<u8>> { if is_ascii_bytes(b) { Some(b) } else { spec_to_ascii(b) } }
+// the canonical form of a name, the one the public suffix list is written in ("canonicalized in the normal way for
+// hostnames - lower-case, Punycode", publicsuffix.org): DNS names are case-insensitive, so whether an RP ID "is a
+// registrable domain rather than a public suffix" (C01) is asked of this form.  ASCII names: lower-cased; others: IDNA
+// ToASCII (trusted accessor of the idna crate, which also lower-cases)
+pub open spec fn lower_byte(c: u8) -> u8 { if 65 <= c && c <= 90 { (c + 32) as u8 } else { c } }
+pub open spec fn ascii_lower(b: Seq<u8>) -> Seq<u8> { Seq::new(b.len(), |i: int| lower_byte(b[i])) }
+pub open spec fn ascii_form(b: Seq<u8>) -> Option<Seq<u8>> { if is_ascii_bytes(b) { Some(ascii_lower(b)) } else { spec_to_ascii(b) } }
+pub trait VxStrLower { fn vx_to_ascii_lowercase(&self) -> (r: String); }
+impl VxStrLower for str {
+    #[verifier::external_body] fn vx_to_ascii_lowercase(&self) -> (r: String) ensures string_sb(r) == ascii_lower(sb(self)) { self.to_ascii_lowercase() }
+}
 // statement of the property: equal, or a suffix that starts right after a '.'
 pub open spec fn label_suffix(d: Seq<u8>, h: Seq<u8>) -> bool {
     d =~= h || (h.len() > d.len() && h[h.len() - d.len() - 1] == 46u8 && is_suffix(d, h))
+}
+// whether a string is a DNS host name (a domain, as opposed to an IP literal or something that is no host at all): the
+// judgement of the url crate's host parser, which is also what `Url::domain` reports for a web origin (trusted accessor)
+pub uninterp spec fn spec_is_dns_host(h: Seq<u8>) -> bool;
+pub mod url {
+    use super::*;
+    pub enum Host { Domain(String), Ipv4(u32), Ipv6(u128) }
+    pub struct ParseError { pub opaque: u8 }
+    impl Host {
+        #[verifier::external_body]
+        pub fn parse(input: &str) -> (r: Result<Host, ParseError>)
+            ensures (r matches Ok(Host::Domain(_))) == spec_is_dns_host(sb(input))
+        { unimplemented!() }
+    }
 }
 // ---- android asset link (trusted accessor)
 #[verifier::external_body] pub struct UnverifiedAssetLink<'a> { _p: &'a u8 }
